@@ -147,14 +147,23 @@ func poolStress(args []string) int {
 			runtime.GOMAXPROCS(16)
 		}
 		lg := &plog{}
-		p := hive.New("stress", hive.WithWorkerCount(workers), hive.WithCancelPendingTasksOnShutdown(cancel))
+		// every other pool is made by a Group with the cancel flag given explicitly (the group's own default is cancel = true:
+		// the caller's option has to win); CreatePool starts the pool
+		var p *hive.WorkerPool
 		var incs atomic.Int64
+		if tr%2 == 1 {
+			p = hive.NewGroup("g").CreatePool("stress", hive.WithWorkerCount(workers), hive.WithCancelPendingTasksOnShutdown(cancel))
+		} else {
+			p = hive.New("stress", hive.WithWorkerCount(workers), hive.WithCancelPendingTasksOnShutdown(cancel))
+		}
 		p.PendingTasksCounter.Subscribe(func(o, n int) {
 			if n > o {
 				incs.Add(1)
 			}
 		})
-		p.Start()
+		if tr%2 == 0 {
+			p.Start()
+		}
 		var ids atomic.Int64
 		var submit func(r *rand.Rand, depth int)
 		var smu sync.Mutex // serialises "count increases during my Submit" bookkeeping per call
